@@ -424,21 +424,27 @@ int ZCK_PUBLIC_API zck_validate_data_checksum(zckCtx *zck) {
     char buf[BUF_SIZE] = {0};
     zckChunk *idx = zck->index.first;
     zck_log(ZCK_LOG_DEBUG, "Checking full hash");
-    while(idx) {
+    bool short_read = false;
+    while(idx && !short_read) {
         size_t to_read = idx->comp_length;
         while(to_read > 0) {
             size_t rb = BUF_SIZE;
             if(rb > to_read)
                 rb = to_read;
-            if(read_data(zck, buf, rb) != rb)
-                return 0;
+            if(read_data(zck, buf, rb) != rb) {
+                /* Restore the read position below before reporting it */
+                short_read = true;
+                break;
+            }
             if(!hash_update(zck, &(zck->check_full_hash), buf, rb))
                 return 0;
             to_read -= rb;
         }
         idx = idx->next;
     }
-    int ret = validate_file(zck, ZCK_LOG_WARNING);
+    int ret = 0;
+    if(!short_read)
+        ret = validate_file(zck, ZCK_LOG_WARNING);
     if(!seek_data(zck, zck->data_offset, SEEK_SET))
         return 0;
     if(!hash_init(zck, &(zck->check_full_hash), &(zck->hash_type)))
